@@ -152,7 +152,14 @@ def perform(sim, op: dict, res: dict, style: int = 0):
 
         if bool(op["concat"]) != isinstance(out, pd.DataFrame):
             raise TypeError(f"concatenated={op['concat']} returned {type(out).__name__}")
-    return canon_frames(out)
+    ans = canon_frames(out)
+    if isinstance(out, list):
+        # what a read hands out belongs to the caller: scribbling on it must not reach the stored result
+        for f in out:
+            if len(f) and len(f.columns):
+                f.iloc[0, 0] = -12345.0
+        out.clear()
+    return ans
 
 
 def rel_close(exp: float, obs: float, tol: float) -> bool:
@@ -216,6 +223,45 @@ def replay_sequence(table: dict, seq: list[int], via: str, seed, tol: float) -> 
         bad = compare(table["answers"][k - 1], obs, tol)
         if bad:
             return {"step": step, "op": op, **bad}
+    if via == "constructor" and len(seq) == 1:
+        bad = epilogue(table, sim, declared)
+        if bad:
+            return {"step": len(seq), **bad}
+    return None
+
+
+def epilogue(table: dict, sim, declared: dict) -> dict | None:
+    """After a single-read sequence: (a) asking for the producers of an unknown variable is refused and leaves the
+    model's declarations alone; (b) a readout added to the model AFTER the reads does not make later reads fail, and
+    the columns the specification knows keep their values (what is reported for the new readout is not specified)."""
+    from . import fnlib
+
+    try:
+        sim.get_producers("no_such_variable", scaled=True)
+        return {"what": "producers of an unknown variable were answered"}
+    except Exception:  # noqa: BLE001  (the class of the refusal is not specified)
+        pass
+    now = declared_parameters(sim.model)
+    if now != declared:
+        return {"what": "the model's parameter declarations were changed by a read", "op": {"view": "producers-unknown"},
+                "before": declared, "after": now}
+    k = next((i for i, o in enumerate(table["ops"]) if o["view"] == "variables" and set(o["flags"]) == {"dvar", "svar", "ro"}
+              and o["norm"] == "none" and o["concat"]), None)
+    if k is None:
+        return None
+    op = table["ops"][k]
+    try:
+        sim.variables            # the argument table is filled before the model is edited
+        sim.model.add_readout("ro_late", fnlib.FNS["dbl"], args=["x"])
+        obs = perform(sim, op, table["res"], 0)
+    except Exception as e:  # noqa: BLE001
+        return {"what": "exception", "op": dict(op, after="add_readout"), "exc": type(e).__name__, "message": str(e)[:200]}
+    for tab in obs:
+        for row in tab:
+            row["v"].pop("ro_late", None)
+    bad = compare(table["answers"][k], obs, 1e-9)
+    if bad:
+        return {"op": dict(op, after="add_readout"), **bad}
     return None
 
 
@@ -337,6 +383,19 @@ def classify_session(events: list[dict], detail: dict) -> str | None:
             and detail.get("what") == "a handed-out result was changed afterwards" \
             and detail.get("detail") == "number of segments":
         return "result-shares-simulator-lists"
+    return None
+
+
+def classify_round5(res: dict, detail: dict) -> str | None:
+    """Shapes of the three defects repaired in the last round-5 commit."""
+    op = detail.get("op") or {}
+    if detail.get("what") == "the stored result was changed by a read" and op.get("view") == "variables" \
+            and not op.get("flags") and not op.get("concat"):
+        return "state-only-view-hands-out-stored-frames"
+    if op.get("after") == "add_readout" and detail.get("what") == "exception":
+        return "readout-added-after-read"
+    if op.get("view") == "producers-unknown":
+        return "unknown-variable-leaves-segment-parameters"
     return None
 
 
